@@ -75,7 +75,7 @@ def gen_ite(w, r, cfg):
 
 def gen_fop(w, r, cfg):
     return dict(op='fop', k=r.choice(['invert', 'and', 'or', 'implies', 'equiv',
-                                      'le', 'lt', 'eq', 'ne']), a=_ri(r), b=_ri(r))
+                                      'le', 'lt', 'eq', 'ne', 'iand', 'ior']), a=_ri(r), b=_ri(r))
 
 
 def gen_eqcheck(w, r, cfg):
@@ -211,7 +211,7 @@ def gen_arm_final(w, r, cfg):
     return dict(op='arm_final', k=r.choice([1, 1, 2, 3, 5, 8, 13, 21]))
 
 
-NEST_KINDS = ['apply', 'apply_r', 'apply_both', 'not', 'ite', 'ite_else', 'op', 'quant', 'let', 'let_fn']
+NEST_KINDS = ['apply', 'apply_r', 'apply_both', 'not', 'ite', 'ite_else', 'op', 'quant', 'let', 'let_fn', 'expr_tmp']
 
 
 def gen_nest(w, r, cfg):
